@@ -130,7 +130,7 @@ static const InstDB::OpFlags op_flag_from_reg_type_table[uint32_t(RegType::kMaxV
 
 static const X86ValidationData x86_validation_data = {
   { ASMJIT_LOOKUP_TABLE_32(REG_MASK_FROM_REG_TYPE_X86, 0) },
-  B(RegType::kGp16) | B(RegType::kGp32) | B(RegType::kPC)     | B(RegType::kLabelTag),
+  B(RegType::kGp16) | B(RegType::kGp32) | B(RegType::kLabelTag),
   B(RegType::kGp16) | B(RegType::kGp32) | B(RegType::kVec128) | B(RegType::kVec256) | B(RegType::kVec512)
 };
 
